@@ -949,4 +949,245 @@ Section OCalls.
         rewrite (o_rekey_root _ _ (rooted_ne Hran)). exact Hroot.
       + apply orel_with; assumption.
   Qed.
+
+  (* ---- the composites over OpenFile -------------------------------------------------------------------- *)
+  Lemma o_read_dir_sim sw sl (O : orel sw sl) (r : str) : okstr (SLASH :: r) ->
+    okres (o_read_dir sw (W (SLASH :: r))) = okres (o_read_dir sl (SLASH :: r)).
+  Proof.
+    intros Hok. unfold o_read_dir.
+    destruct (@o_open_file_sim sw sl O r 0%N 0%N Hok) as [O1 Hres].
+    destruct (o_open_file sw (W (SLASH :: r)) 0 0) as [sw1 [aw|fw]];
+      destruct (o_open_file sl (SLASH :: r) 0 0) as [sl1 [al|fl]]; cbn [fst snd] in *; try contradiction; [exact Hres|].
+    destruct Hres as (Hn & _ & _ & Hi1 & Hi2 & _ & _ & _ & Hnw & Hnl & Hsome).
+    unfold of_read_dir, o_prologue. destruct (hd_name fw); [congruence|]. destruct (hd_name fl); [congruence|].
+    rewrite Hn. destruct (hd_node fl) as [c|]; [|congruence].
+    pose proof (oheap_get c (or_heap O1)) as Hg.
+    destruct (oget (o_heap sw1) c) as [a|]; destruct (oget (o_heap sl1) c) as [b|]; try contradiction; [|reflexivity].
+    destruct Hg as (_ & _ & _ & _ & Hdir). rewrite Hdir. destruct (negb (on_dir b)); [reflexivity|].
+    unfold o_batch. rewrite Hi1, Hi2. reflexivity.
+  Qed.
+
+  Lemma o_read_file_sim sw sl (O : orel sw sl) (r : str) : okstr (SLASH :: r) ->
+    okres (o_read_file sw (W (SLASH :: r))) = okres (o_read_file sl (SLASH :: r)).
+  Proof.
+    intros Hok. unfold o_read_file.
+    destruct (@o_open_file_sim sw sl O r 0%N 0%N Hok) as [O1 Hres].
+    destruct (o_open_file sw (W (SLASH :: r)) 0 0) as [sw1 [aw|fw]];
+      destruct (o_open_file sl (SLASH :: r) 0 0) as [sl1 [al|fl]]; cbn [fst snd] in *; try contradiction; [exact Hres|].
+    destruct Hres as (Hn & Hat & Hm & _ & _ & _ & _ & _ & Hnw & Hnl & Hsome).
+    unfold of_read, o_prologue. destruct (hd_name fw); [congruence|]. destruct (hd_name fl); [congruence|].
+    rewrite Hn, Hm, Hat. destruct (hd_node fl) as [c|]; [|congruence].
+    pose proof (oheap_get c (or_heap O1)) as Hg.
+    destruct (oget (o_heap sw1) c) as [a|]; destruct (oget (o_heap sl1) c) as [b|]; try contradiction; [|reflexivity].
+    destruct Hg as (Ech & Edt & _ & _ & Hdir). rewrite Hdir, Ech, Edt.
+    match goal with |- context [Z.leb ?n 0] => destruct (Z.leb n 0) end; [reflexivity|].
+    destruct (on_dir b); [destruct (owin sw1), (owin sl1); reflexivity|].
+    destruct (negb (has (hd_mode fl) OpenRead)); [reflexivity|]. destruct (Z.eqb _ 0); reflexivity.
+  Qed.
+
+  Lemma o_write_file_sim sw sl (O : orel sw sl) (r : str) data perm : okstr (SLASH :: r) ->
+    ocrel (o_write_file sw (W (SLASH :: r)) data perm) (o_write_file sl (SLASH :: r) data perm).
+  Proof.
+    intros Hok. unfold o_write_file.
+    destruct (@o_open_file_sim sw sl O r (O_WRONLY + O_CREATE + O_TRUNC)%N perm Hok) as [O1 Hres].
+    destruct (o_open_file sw (W (SLASH :: r)) (O_WRONLY + O_CREATE + O_TRUNC) perm) as [sw1 [aw|fw]];
+      destruct (o_open_file sl (SLASH :: r) (O_WRONLY + O_CREATE + O_TRUNC) perm) as [sl1 [al|fl]];
+      cbn [fst snd] in *; try contradiction; [split; [exact O|exact Hres]|].
+    destruct Hres as (Hn & Hat & Hm & _ & _ & _ & _ & _ & Hnw & Hnl & Hsome).
+    unfold of_write, o_prologue. destruct (hd_name fw); [congruence|]. destruct (hd_name fl); [congruence|].
+    rewrite Hn, Hm, Hat. destruct (hd_node fl) as [c|]; [|congruence].
+    pose proof (oheap_get c (or_heap O1)) as Hg.
+    destruct (oget (o_heap sw1) c) as [a|] eqn:Ea; destruct (oget (o_heap sl1) c) as [b|] eqn:Eb; try contradiction;
+      [|split; [exact O1|reflexivity]].
+    destruct Hg as (Ech & Edt & Enl & Eid & Hdir). rewrite Hdir, Edt.
+    destruct (on_dir b || negb (has (hd_mode fl) OpenWrite)) eqn:Ec;
+      [split; [exact O1|destruct (owin sw1), (owin sl1); reflexivity]|].
+    destruct data as [|b0 data]; [split; [exact O1|reflexivity]|].
+    split; [|reflexivity]. cbn [fst]. apply orel_with_heap; [exact O1| |].
+    - apply oheap_upd; [apply O1|]. apply onrel_data. unfold onrel. repeat split; assumption.
+    - apply names_upd; [apply O1|]. apply names_data. exact (@names_get (o_heap sl1) c b (or_names O1) Eb).
+  Qed.
 End OCalls.
+
+(* ---- steps and histories ---------------------------------------------------------------------------------- *)
+Section ORun.
+  Variable d : N.
+  Hypothesis Hd : is_letter d = true.
+  Notation W := (W d).
+  Notation orel := (orel d).
+
+  Definition owrel (ww wl : oworld) : Prop := orel (ow_fs ww) (ow_fs wl).
+
+  Lemma orel_with_umask sw sl m : orel sw sl -> orel (o_with_umask sw m) (o_with_umask sl m).
+  Proof. intros O. destruct O. constructor; cbn; auto. Qed.
+
+  Theorem o_step_sim (ww wl : oworld) (cw cl : call) : owrel ww wl -> pcall d cw cl ->
+    owrel (fst (ostep ww cw)) (fst (ostep wl cl))
+    /\ (os_specific cl = false -> okres (snd (ostep ww cw)) = okres (snd (ostep wl cl))).
+  Proof.
+    intros O Hc. unfold owrel in *.
+    assert (Hv : forall vi (kw kl : oworld * res),
+              (orel (ow_fs (fst kw)) (ow_fs (fst kl)) /\ (os_specific cl = false -> okres (snd kw) = okres (snd kl))) ->
+              orel (ow_fs (fst (o_on_view ww vi kw))) (ow_fs (fst (o_on_view wl vi kl)))
+              /\ (os_specific cl = false -> okres (snd (o_on_view ww vi kw)) = okres (snd (o_on_view wl vi kl)))).
+    { intros vi kw kl Hk. unfold o_on_view. destruct vi; [exact Hk|]. split; [exact O|reflexivity]. }
+    assert (Hl : forall xw xl : ofs * res, ocrel d xw xl ->
+              orel (ow_fs (fst (olift ww xw))) (ow_fs (fst (olift wl xl)))
+              /\ (os_specific cl = false -> okres (snd (olift ww xw)) = okres (snd (olift wl xl)))).
+    { intros xw xl [X1 X2]. unfold olift. cbn [fst snd ow_with_fs ow_fs]. split; [exact X1|intros _; exact X2]. }
+    assert (Hr : forall rw rl : res, okres rw = okres rl ->
+              orel (ow_fs (fst (ww, rw))) (ow_fs (fst (wl, rl))) /\ (os_specific cl = false -> okres (snd (ww, rw)) = okres (snd (wl, rl)))).
+    { intros rw rl X. cbn [fst snd]. split; [exact O|intros _; exact X]. }
+    destruct Hc; cbn [ostep]; apply Hv.
+    - apply Hl, (@o_mkdir_sim d Hd); assumption.
+    - apply Hl, (@o_mkdir_all_sim d Hd); assumption.
+    - destruct (@o_open_file_sim d Hd (ow_fs ww) (ow_fs wl) O r flag perm H) as [O1 Hres].
+      destruct (o_open_file (ow_fs ww) (W (SLASH :: r)) flag perm) as [sw1 [aw|fw]];
+        destruct (o_open_file (ow_fs wl) (SLASH :: r) flag perm) as [sl1 [al|fl]]; cbn [fst snd] in *; try contradiction.
+      + split; [exact O1|intros _; exact Hres].
+      + split; [exact O1|reflexivity].
+    - apply Hl, (@o_remove_sim d Hd); assumption.
+    - apply Hl, (@o_remove_all_sim d Hd); assumption.
+    - apply Hl, (@o_rename_sim d Hd); assumption.
+    - apply Hl, (@o_link_sim d Hd); assumption.
+    - apply Hr. unfold o_symlink. reflexivity.
+    - apply Hr. unfold o_readlink. reflexivity.
+    - apply Hl, (@o_truncate_sim d Hd); assumption.
+    - apply Hl, (@o_chmod_sim d Hd); assumption.
+    - destruct (@o_chown_sim d (ow_fs ww) (ow_fs wl) O r uid gid H) as [O1 _].
+      unfold olift. cbn [fst snd ow_with_fs ow_fs]. split; [exact O1|discriminate].
+    - destruct (@o_chown_sim d (ow_fs ww) (ow_fs wl) O r uid gid H) as [O1 _].
+      unfold olift. cbn [fst snd ow_with_fs ow_fs]. split; [exact O1|discriminate].
+    - apply Hr, (@o_chtimes_sim d Hd); assumption.
+    - apply Hl, (@o_chdir_sim d Hd); assumption.
+    - apply Hr. reflexivity.
+    - apply Hr, (@o_stat_sim d Hd); assumption.
+    - apply Hr, (@o_stat_sim d Hd); assumption.
+    - apply Hr. reflexivity.
+    - apply Hr, (@o_read_dir_sim d Hd); assumption.
+    - apply Hr, (@o_read_file_sim d Hd); assumption.
+    - apply Hl, (@o_write_file_sim d Hd); assumption.
+    - cbn [fst snd ow_with_fs ow_fs]. split; [apply orel_with_umask, O|reflexivity].
+  Qed.
+
+  Theorem o_run_sim : forall cws cls ww wl, Forall2 (pcall d) cws cls -> owrel ww wl ->
+    owrel (fst (orun ww cws)) (fst (orun wl cls))
+    /\ agree_except (map os_specific cls) (map okres (snd (orun ww cws))) (map okres (snd (orun wl cls))).
+  Proof.
+    intros cws cls ww wl H. revert ww wl. induction H as [|cw cl cws cls Hc H IH]; intros ww wl Hw.
+    - cbn. split; [exact Hw|exact I].
+    - cbn [orun map]. destruct (o_step_sim Hw Hc) as [Hw1 Hok].
+      destruct (ostep ww cw) as [ww1 rw]. destruct (ostep wl cl) as [wl1 rl]. cbn [fst snd] in *.
+      destruct (IH ww1 wl1 Hw1) as [Hw2 Hag].
+      destruct (orun ww1 cws) as [ww2 rws]. destruct (orun wl1 cls) as [wl2 rls]. cbn [fst snd map agree_except] in *.
+      split; [exact Hw2|split; [exact Hok|exact Hag]].
+  Qed.
+
+  (* ---- the OS-independent view: the tree of children maps below the root node ------------------------------- *)
+  Fixpoint onsnap (fuel : nat) (h : oheap) (path : list str) (i : nat) : list nentry :=
+    match fuel with
+    | O => []
+    | S f =>
+        match oget h i with
+        | Some n =>
+            if on_dir n
+            then NEDir path :: flat_map (fun e : str * nat => onsnap f h (path ++ [fst e]) (snd e)) (sort_by (fun x => fst x) (on_ch n))
+            else [NEFile path (on_data n) (on_nlink n) (on_id n)]
+        | None => []
+        end
+    end.
+
+  Definition o_iso_view (w : oworld) : list nentry :=
+    let s := ow_fs w in
+    match ikey (o_index s) (o_volume (o_os s)) with
+    | Some r => onsnap SNAP_DEPTH (o_heap s) [] r
+    | None => []
+    end.
+
+  Lemma onsnap_rel hw hl : Forall2 (onrel) hw hl -> forall fuel path i, onsnap fuel hw path i = onsnap fuel hl path i.
+  Proof.
+    intros H. induction fuel as [|fuel IH]; intros path i; [reflexivity|]. cbn [onsnap].
+    pose proof (oheap_get i H) as Hg.
+    destruct (oget hw i) as [a|]; destruct (oget hl i) as [b|]; try contradiction; [|reflexivity].
+    destruct Hg as (Ech & Edt & Enl & Eid & Hdir). rewrite Hdir, Ech, Edt, Enl, Eid.
+    destruct (on_dir b); [|reflexivity]. f_equal. apply flat_map_ext. intros e. apply IH.
+  Qed.
+End ORun.
+
+Theorem o_iso_view_rel (ww wl : oworld) : owrel DRIVE_C ww wl -> o_iso_view ww = o_iso_view wl.
+Proof.
+  intros O. unfold o_iso_view, owrel in *. rewrite (or_osw O), (or_osl O), (or_index O).
+  change (o_volume Windows) with (W DRIVE_C []). rewrite (ikey_W DRIVE_C). change (o_volume Linux) with (@nil N).
+  destruct (ikey (o_index (ow_fs wl)) []); [|reflexivity]. apply onsnap_rel, O.
+Qed.
+
+(* ---- the worlds NewWithOptions builds --------------------------------------------------------------------- *)
+Lemma o_chmod_right sw sl (p : str) mode : orel DRIVE_C sw sl -> orel DRIVE_C sw (fst (o_chmod sl p mode)).
+Proof.
+  intros O. unfold o_chmod. destruct (ofind sl (oabs sl p)) as [[c cn]|] eqn:Efl; [|exact O]. cbn [fst].
+  pose proof (@ofind_get sl _ c cn Efl) as Eg.
+  destruct O as [OI OK OH ON OD OU OM OW OL OR]. constructor; cbn [o_with_heap o_with o_index o_heap o_last_id o_user o_umask o_os]; auto.
+  - clear -OH Eg. revert c Eg. induction OH as [|a b hw hl Hab H IH]; intros c Eg; [destruct c; discriminate|].
+    destruct c; cbn [oupd].
+    + cbn in Eg. injection Eg as ->. constructor; [|exact H]. destruct Hab as (E1 & E2 & E3 & E4 & E5).
+      unfold onrel, on_dir in *. cbn [on_with_meta on_ch on_data on_nlink on_id on_meta]. rewrite with_mode_dir. auto.
+    + constructor; [exact Hab|]. apply IH. exact Eg.
+  - apply names_upd; [exact ON|]. exact (@names_get (o_heap sl) c cn ON Eg).
+Qed.
+
+Lemma o_mk_system_dir_windows s (x : str * N) : o_os s = Windows ->
+  o_mk_system_dir s x = fst (o_mkdir_all s (fst x) (snd x)).
+Proof. intros E. unfold o_mk_system_dir, owin. rewrite E. reflexivity. Qed.
+
+Lemma o_mk_system_dir_linux s (x : str * N) : o_os s = Linux ->
+  o_mk_system_dir s x = fst (o_chmod (fst (o_mkdir_all s (fst x) (snd x))) (fst x) (snd x)).
+Proof. intros E. unfold o_mk_system_dir, owin. rewrite E. reflexivity. Qed.
+
+Lemma o_step_dir sw sl (x : str * N) : okstr (SLASH :: fst x) -> orel DRIVE_C sw sl ->
+  orel DRIVE_C (o_mk_system_dir sw (WC (SLASH :: fst x), snd x)) (o_mk_system_dir sl (SLASH :: fst x, snd x)).
+Proof.
+  intros Hr O. rewrite (@o_mk_system_dir_windows sw _ (or_osw O)), (@o_mk_system_dir_linux sl _ (or_osl O)). cbn [fst snd].
+  apply o_chmod_right. exact (proj1 (@o_mkdir_all_sim DRIVE_C DRIVE_C_letter sw sl O (fst x) (snd x) Hr)).
+Qed.
+
+Lemma o_root_rel :
+  orel DRIVE_C
+    {| o_index := [(o_volume Windows, 0); (o_volume Windows ++ [sepc Windows], 0)];
+       o_heap := [{| on_ch := []; on_data := []; on_nlink := 0; on_id := 0;
+                     on_meta := {| m_mode := N.lor MODE_DIR 493; m_uid := 0; m_gid := 0 |} |}];
+       o_last_id := 0; o_cwd := o_volume Windows ++ [sepc Windows]; o_user := root_user; o_umask := 0; o_os := Windows |}
+    {| o_index := [(o_volume Linux, 0); (o_volume Linux ++ [sepc Linux], 0)];
+       o_heap := [{| on_ch := []; on_data := []; on_nlink := 0; on_id := 0;
+                     on_meta := {| m_mode := N.lor MODE_DIR 493; m_uid := 0; m_gid := 0 |} |}];
+       o_last_id := 0; o_cwd := o_volume Linux ++ [sepc Linux]; o_user := root_user; o_umask := 0; o_os := Linux |}.
+Proof.
+  constructor; cbn [o_index o_heap o_last_id o_user o_umask o_os]; try reflexivity.
+  - constructor; [split; [constructor|left; reflexivity]|].
+    constructor; [split; [constructor; [exact okc_SLASH|constructor]|right; eexists; reflexivity]|constructor].
+  - constructor; [|constructor]. unfold onrel. cbn. auto.
+  - constructor; [constructor|constructor].
+  - discriminate.
+Qed.
+
+Theorem o_init_rel (um : N) (dirs : list (str * N)) : Forall (fun x => okstr (SLASH :: fst x)) dirs ->
+  owrel DRIVE_C (o_init_dirs Windows um (dirsW dirs)) (o_init_dirs Linux um (dirsL dirs)).
+Proof.
+  intros Hds. unfold owrel, o_init_dirs. cbn [ow_fs]. apply orel_with_umask. unfold dirsW, dirsL.
+  apply (@fold_left2_rel ofs ofs (str * N) (str * N) (str * N) (orel DRIVE_C) (fun x => okstr (SLASH :: fst x))
+           o_mk_system_dir o_mk_system_dir
+           (fun x => (WC (SLASH :: fst x), snd x)) (fun x => (SLASH :: fst x, snd x)) dirs); [|exact Hds|exact o_root_rel].
+  intros a b x Hx Hab. apply o_step_dir; assumption.
+Qed.
+
+(* ---- the OrefaFS half of the property ----------------------------------------------------------------------- *)
+Theorem orefa_iso_histories (um : N) (dirs : list (str * N)) (cws cls : list call) :
+  Forall (fun x => okstr (SLASH :: fst x)) dirs -> Forall2 (pcall DRIVE_C) cws cls ->
+  let ww := o_init_dirs Windows um (dirsW dirs) in
+  let wl := o_init_dirs Linux um (dirsL dirs) in
+  agree_except (map os_specific cls) (map okres (snd (orun ww cws))) (map okres (snd (orun wl cls)))
+  /\ o_iso_view (fst (orun ww cws)) = o_iso_view (fst (orun wl cls)).
+Proof.
+  intros Hds Hc ww wl.
+  destruct (@o_run_sim DRIVE_C DRIVE_C_letter cws cls ww wl Hc (o_init_rel um Hds)) as [Hw Hag].
+  split; [exact Hag|apply o_iso_view_rel, Hw].
+Qed.
